@@ -139,6 +139,41 @@ var c20Stems = []string{
 	"aia", "oui", "tr", "str", "é", "ñ", "ü", "к", "α", "世", "က", "_", "9", "a_", "bb", "pp", "zz", "xx", "ww", "ch", "gh", "aiu", "eie",
 }
 
+// Words that are ordinary tokens for BOTH analysers (cognates, loan words, proper nouns): they pass the
+// English and the Italian stop-word filter and most of them are stemmed differently by the two suffix
+// strippers. A text analysed by one language must not be influenced by what the other one did with them.
+var c20Cognates = []string{
+	"animale", "generale", "stazione", "computer", "regionale", "normale", "nazionale", "centrale", "finale", "totale",
+	"originale", "personale", "naturale", "musicale", "culturale", "sociale", "speciale", "ideale", "reale", "locale",
+	"informazione", "nazione", "regione", "religione", "opinione", "versione", "televisione", "decisione", "passione",
+	"possibile", "terribile", "probabile", "stabile", "mobile", "fragile", "facile", "simile", "automobile",
+	"importante", "elegante", "distante", "presente", "differente", "intelligente", "evidente", "agente", "cliente",
+	"piano", "radio", "video", "studio", "zero", "solo", "camera", "opera", "villa", "pizza", "banana", "idea", "area",
+	"formula", "arena", "agenda", "data", "media", "extra", "propaganda", "panorama", "cinema", "dilemma",
+	"hotel", "bar", "film", "sport", "internet", "software", "manager", "leader", "server", "monitor", "motor", "editor",
+	"doctor", "actor", "director", "professor", "terror", "horror", "color", "favor", "tumor", "minor", "superior",
+	"famous", "generous", "various", "serious", "nervous", "pianos", "pizzas", "operas", "hotels", "computers", "animali",
+	"generali", "stazioni", "computing", "generating", "formale", "formali", "formals", "finance", "finanze", "distance",
+	"distanza", "presence", "presenza", "university", "activity", "quality", "qualità", "city", "crisis", "crisi", "analysis",
+	"analisi", "basis", "basi", "thesis", "tesi", "virus", "bonus", "campus", "focus", "status", "corpus", "versus",
+	"Animale", "GENERALE", "Computer", "STAZIONE", "Hotel", "PIANO",
+}
+
+// stems and endings for generated words of the same kind (both stemmers strip at least one of the endings)
+var c20CogStems = []string{
+	"anim", "gener", "region", "norm", "stat", "comput", "nazion", "nation", "centr", "form", "person", "natur", "cultur",
+	"music", "art", "tur", "tot", "fin", "real", "soci", "loc", "vit", "oper", "cre", "port", "parl", "temp", "mod", "crit",
+	"fam", "activ", "attiv", "possib", "cap", "vend", "cont", "organ", "sistem", "system", "inform", "decis", "elegan",
+}
+
+var c20CogEndings = []string{
+	"ale", "ali", "al", "als", "ile", "ione", "ioni", "ion", "ions", "azione", "azioni", "ation", "ations", "ista", "isti", "ist",
+	"ists", "ismo", "ism", "ante", "anti", "ant", "ente", "enti", "ent", "abile", "abili", "able", "ibile", "ible", "ico", "ica",
+	"ici", "ic", "ics", "ive", "ivo", "iva", "ose", "oso", "osa", "ous", "ate", "ato", "ata", "ati", "are", "ere", "ire", "er",
+	"ers", "or", "ors", "ore", "ori", "ar", "s", "es", "i", "e", "a", "o", "ing", "ed", "ment", "mente", "mento", "menti", "ance",
+	"anza", "ence", "enza", "ity", "ità", "izer", "izzare", "ize", "ly", "ful", "ness", "ico", "logia", "logy", "ura", "ure",
+}
+
 var c20Letters = []string{"a", "b", "ab", "x", "é", "世", "no", "xyz", "0", "_", "y", "e", "func", "#", "-", "'", "\xff", "😀", "é"}
 
 func c20Pick(t *rapid.T, xs []string, label string) string {
@@ -162,6 +197,9 @@ func c20GenText(splitter bool) *rapid.Generator[c20Text] {
 		"invalid_utf8", "big", "random", "stems", "soup", "words", "mixed_scripts", "invalid_utf8", "combining"}
 	if splitter {
 		classes = append(classes, "code", "code", "markdown", "markdown", "words", "no_seps")
+	} else {
+		// analyser-only class: vocabulary shared by the English and the Italian analyser
+		classes = append(classes, "cognates", "cognates", "cognates")
 	}
 	return rapid.Custom(func(t *rapid.T) c20Text {
 		class := c20Pick(t, classes, "class")
@@ -190,6 +228,21 @@ func c20GenText(splitter bool) *rapid.Generator[c20Text] {
 			for i := 0; i < n; i++ {
 				add(word(), c20Rep(t))
 				add(c20Pick(t, c20Seps, "sep"), 1)
+			}
+		case "cognates":
+			// words both analysers accept (cognates, loan words, generated stem+ending pairs), mixed with
+			// ordinary vocabulary; plain separators so that the words stay whole tokens
+			n := npieces(24)
+			for i := 0; i < n; i++ {
+				switch rapid.IntRange(0, 5).Draw(t, "gk") {
+				case 0:
+					add(word(), 1)
+				case 1, 2:
+					add(c20Pick(t, c20CogStems, "cstem")+c20Pick(t, c20CogEndings, "cend"), 1)
+				default:
+					add(c20Pick(t, c20Cognates, "cog"), 1)
+				}
+				add(c20Pick(t, []string{" ", " ", " ", "\n", ", ", ". ", "; ", "  "}, "sep"), 1)
 			}
 		case "only_seps":
 			n := npieces(30)
